@@ -3,7 +3,7 @@
 From Coq Require Import List NArith.
 From FP Require Import Model.Base Model.Rdh Model.Scanner Model.CdpRunning Model.Link Spec.Framing
   Proofs.C03_proofs Proofs.C18_proofs.
-From FP Require Import Model.Alpide Proofs.C04_stave Proofs.C18_total.
+From FP Require Import Model.Alpide Proofs.C04_stave Proofs.C06_proofs Proofs.C18_total Proofs.C18_run.
 From FP Require Gen.Facts.
 Import ListNotations.
 Open Scope N_scope.
@@ -63,8 +63,26 @@ Theorem C18_refuted_when_batch_dropped :
   map c_off (concat (so_batches (scan true true f16_cfg (firstn 130 (serialize f16_pkts))))) = [0].
 Proof. exact c18_refuted_when_batch_dropped. Qed.
 
+(* scanner + dispatcher + validators composed, for EVERY cut position, filter, source, mode and dispatch unit: the packets handed on from
+   the truncated input are those of the complete prefix plus at most one more (the header of the packet whose payload was cut), and the
+   unit's findings for the complete packets before the cut are the SAME in both runs -- the unit's validator, on the truncated and on
+   the whole input alike, starts with exactly the findings of one pass over the unit's complete packets (or stops at the invalid-layer
+   site of recorded finding F6, when a packet it comes to names layer 7) *)
+Theorem C18_units_agree_before_the_cut : forall c vc pkts k id, Forall wf_pkt pkts -> (k <= length (serialize pkts))%nat ->
+  let '(pre, t) := cut_at k pkts in
+  let base := map (mk_cdp c) (selected c 0 pre) in
+  let cut := concat (so_batches (scan_impl c (firstn k (serialize pkts)))) in
+  let full := concat (so_batches (scan_impl c (serialize pkts))) in
+  (exists tl, cut = base ++ tl /\ (length tl <= 1)%nat) /\
+  forall msgs, run_validator vc (sel vc id base) = Ok msgs ->
+    extends_or_layer7 vc msgs (sel vc id cut) /\ extends_or_layer7 vc msgs (sel vc id full).
+Proof.
+  exact (c18_units_when Gen.Facts.cdp_offset_sampled_after Gen.Facts.batch_kept_on_invalid_input (conj eq_refl (conj eq_refl eq_refl)) eq_refl eq_refl).
+Qed.
+
 Print Assumptions C18_scan_truncated.
 Print Assumptions C18_cut_decomposition.
 Print Assumptions C18_validator_prefix.
 Print Assumptions C18_validator_prefix_total.
 Print Assumptions C18_refuted_when_batch_dropped.
+Print Assumptions C18_units_agree_before_the_cut.
